@@ -117,6 +117,7 @@ func run(c *core.Case, st *core.CaseStats, seed int64) {
 			st.Add(core.Mismatch{Fn: c.Fn, Kind: "panic", Case: c, Input: input, Expected: "no panic", Actual: msg})
 			continue
 		}
+		core.Retain(st, c, c.Fn, input, got)
 		if !valid {
 			continue // only totality is promised for strings that are not valid UTF-8
 		}
@@ -169,6 +170,8 @@ func runIdent(c *core.Case, st *core.CaseStats, rng *rand.Rand) {
 				st.Add(core.Mismatch{Fn: c.Fn, Kind: "panic", Case: c, Input: in, Expected: "no panic", Actual: msg})
 			} else if back != x {
 				st.Add(core.Mismatch{Fn: c.Fn, Kind: "value", Case: c, Input: in, Expected: x, Actual: back})
+			} else {
+				core.Retain(st, c, c.Fn, in, back)
 			}
 			st.Nontrivial++
 		}
